@@ -23,7 +23,17 @@ func main() {
 	verif := flag.String("verif", "/verif", "verif root (evidence, known findings)")
 	only := flag.String("only", "", "restrict verdict lines to obligations whose rule/construct contains this string (replay)")
 	list := flag.Bool("list", false, "list registered properties")
+	dump := flag.String("symx", "", "debug: print the symbolic rendering of pkgsuffix:recv:func (e.g. internal/history:SearchHistory:AddEntry)")
 	flag.Parse()
+	if *dump != "" {
+		p, err := load.Load(*repo, "linux", "amd64")
+		if err != nil {
+			fmt.Println(err)
+			os.Exit(2)
+		}
+		rules.DumpSymx(p, *dump)
+		return
+	}
 	if *list {
 		ps := rules.Props()
 		sort.Strings(ps)
